@@ -4,6 +4,7 @@ package mimetype
 
 import (
 	"bytes"
+	ejson "encoding/json"
 	"fmt"
 	"strings"
 	"testing"
@@ -95,9 +96,17 @@ type c13Fwd struct {
 var c13Words = []string{"id", "name", "alpha", "42", "3.14", "x", "hello world", "a-b", "2024-01-02", "n/a", "é", "Zz", "0", "foo.bar", "v;w", "k=v", "%"}
 
 func c13Field(t *rapid.T, sep byte, tsv bool) string {
-	switch rapid.IntRange(0, 7).Draw(t, "fk") {
+	switch rapid.IntRange(0, 9).Draw(t, "fk") {
 	case 0:
 		return ""
+	case 8: // blanks, then a quote that is part of the text (not a quoted field: it does not open the field)
+		leads := []string{" ", "  ", "\t "}
+		if tsv {
+			leads = []string{" ", "  ", "   "}
+		}
+		return rapid.SampledFrom(leads).Draw(t, "lead") + `"` + rapid.SampledFrom(c13Words).Draw(t, "w") + rapid.SampledFrom([]string{"", `"`, ` inch`}).Draw(t, "qtail")
+	case 9: // a bare carriage return inside the field (old Mac line ends pasted into a cell)
+		return rapid.SampledFrom(c13Words).Draw(t, "w") + "\r" + rapid.SampledFrom(c13Words).Draw(t, "w2")
 	case 1: // quoted containing the separator
 		return `"` + rapid.SampledFrom(c13Words).Draw(t, "w") + string(sep) + rapid.SampledFrom(c13Words).Draw(t, "w2") + `"`
 	case 2: // quoted with doubled quotes
@@ -665,6 +674,78 @@ func c13TxtCheck(c c13Txt) vfResult {
 
 func TestVerif_C13(t *testing.T) {
 	defer vfStats.dump()
+	if vfOnlySub("selfsum") && !vfReplayMode() && vfShard() == 0 {
+		// tables / streams whose bytes 148..155 spell the tar checksum of their own first block
+		n := 0
+		for _, fill := range []byte{'z', 'm', 'Q'} {
+			for _, v := range []struct {
+				digits int
+				tail   string
+			}{{6, " ,"}, {6, ",x"}, {5, " ,x"}, {6, " x"}} {
+				// (a field made of octal digits and blanks only WOULD be a valid tar checksum field: such
+				// a file really carries the tar signature and is outside this property)
+				for _, kind := range []string{"csv", "tsv", "ndjson"} {
+					var doc []byte
+					second := -1
+					switch kind {
+					case "csv", "tsv":
+						sep := byte(',')
+						if kind == "tsv" {
+							sep = '\t'
+						}
+						tail := strings.ReplaceAll(v.tail, ",", string(sep))
+						doc = append(doc, bytes.Repeat([]byte{fill}, 147)...)
+						doc = append(doc, sep)
+						doc = append(doc, "00000000"...)
+						if !strings.Contains(tail, string(sep)) {
+							doc = append(doc, sep)
+						}
+						doc = append(doc, "x\n"...)
+						for len(doc) < 700 {
+							doc = append(doc, []byte("a"+string(sep)+"b"+string(sep)+"c\n")...)
+							if second < 0 {
+								second = len(doc)
+							}
+						}
+						v.tail = tail
+					default:
+						doc = append(doc, "[\""...)
+						doc = append(doc, bytes.Repeat([]byte{fill}, 144)...)
+						doc = append(doc, "\","...)
+						doc = append(doc, "00000000"...)
+						doc = append(doc, "1]\n"...)
+						for len(doc) < 700 {
+							doc = append(doc, "{\"a\":1}\n"...)
+							if second < 0 {
+								second = len(doc)
+							}
+						}
+					}
+					p := vfSelfSum(doc, v.digits, v.tail)
+					if p == nil {
+						continue
+					}
+					if kind == "ndjson" && !ejson.Valid(p[:bytes.IndexByte(p, '\n')]) {
+						continue // this field spelling is not a JSON value
+					}
+					n++
+					c := c13Fwd{Kind: kind, Doc: p, Second: second}
+					r := c13FwdCheck(c)
+					r.Nontrivial = true
+					r.Labels = append(r.Labels, "selfsum")
+					vfStats.record(r, func() any { return map[string]any{"sub": "selfsum", "kind": kind, "field": string(p[148:156])} })
+					if r.Err != nil {
+						vfEnumFail(t, "C13", "fwd", c, r.Err)
+						return
+					}
+				}
+			}
+		}
+		vfStats.Subchecks["selfsum"] = fmt.Sprintf("%d tables / streams whose bytes 148..155 spell the tar checksum of their first block", n)
+	}
+	if t.Failed() {
+		return
+	}
 	if vfOnlySub("fwd") {
 		vfRun(t, vfSub[c13Fwd]{Prop: "C13", Name: "fwd", Checks: vfN(20000, 1500000), Gen: c13GenFwd, Check: c13FwdCheck})
 	}
